@@ -382,7 +382,9 @@ def getitem(interp, obj, key):
                 if isinstance(obj, (tuple, list)) and all(is_scalar(x) for x in obj):
                     # symbolic slice of a tuple of scalars (e.g. ZEROS[:extra])
                     arr = concat(interp, [list(obj)], "tuple")
-                    return getitem(interp, arr, key)
+                    r = getitem(interp, arr, key)
+                    r.from_tuple = True       # still a tuple for '+' (tuple concatenation), see pyvc.binop
+                    return r
                 raise OutsideSubset("symbolic slice of a tuple")
             return obj[key]
         if is_sym(key):
